@@ -161,6 +161,14 @@ SeekYourWrites ==
                ELSE IF present = {} THEN cur = 0
                ELSE cur \in nbrs
             /\ cur # 0 => lst = from(cur)
+\* ... and every range with both bounds among OpKeys (all nine combinations of bound kinds)
+RangeYourWrites ==
+    Alive => \A lk \in {"I", "E", "U"}, hk \in {"I", "E", "U"}, lo \in OpKeys, hi \in OpKeys :
+        LET present == {x \in Keys : ref[x] # 0}
+            want == {x \in present : /\ (lk = "U" \/ (lk = "I" /\ x >= lo) \/ (lk = "E" /\ x > lo))
+                                      /\ (hk = "U" \/ (hk = "I" /\ x <= hi) \/ (hk = "E" /\ x < hi))}
+            kth(i) == CHOOSE x \in want : Cardinality({y \in want : y < x}) = i - 1
+        IN  RangeList(s, lk, lo, hk, hi) = [i \in 1..Cardinality(want) |-> kth(i)]
 \* the nodes' own data stay sorted (the binary searches of the code assume it)
 NodesSorted == \A i \in 1..Len(s.nodes) : s.nodes[i].deleted \/ IsSorted(s.nodes[i].keys)
 =============================================================================
